@@ -329,3 +329,40 @@ theorem stepT_ok (leaf : String → Bool) (t : Tree) (ht : TreeOK leaf t) : ∀ 
         exact stepFlat_ok leaf σ i s' hd
 
 end Femto.Ctl
+
+namespace Femto.Ctl
+
+/-! ### the tree interpreter is a conservative extension of the single-file controller -/
+
+theorem execRepG_flat_aux (body : List Stmt)
+    (hb : ∀ σ, execStmtsG stepFlat body σ = ((execStmts body σ).1, (execStmts body σ).2.map .ev)) (k : Nat) (σ : St) :
+    execRepG stepFlat k body σ = ((execRep k body σ).1, (execRep k body σ).2.map .ev) := by
+  induction k generalizing σ with
+  | zero => simp [execRepG, execRep]
+  | succ k ih =>
+    rw [execRepG, execRep]
+    simp only [hb, ih, List.map_append]
+
+mutual
+  theorem execStmtG_flat (s : Stmt) (σ : St) :
+      execStmtG stepFlat s σ = ((execStmt s σ).1, (execStmt s σ).2.map .ev) := by
+    match s with
+    | .atom i => rw [execStmtG, execStmt]; rfl
+    | .rep n body =>
+      rw [execStmtG, execStmt]
+      exact execRepG_flat_aux body (fun σ => execStmtsG_flat body σ) n σ
+    | .forr v lo hi body =>
+      rw [execStmtG, execStmt]
+      have := execRepG_flat_aux body (fun σ => execStmtsG_flat body σ) (hi - lo + 1).toNat σ
+      simp only [this]
+      split <;> simp
+  theorem execStmtsG_flat (ss : List Stmt) (σ : St) :
+      execStmtsG stepFlat ss σ = ((execStmts ss σ).1, (execStmts ss σ).2.map .ev) := by
+    match ss with
+    | [] => simp [execStmtsG, execStmts]
+    | s :: rest =>
+      rw [execStmtsG, execStmts]
+      simp only [execStmtG_flat s, execStmtsG_flat rest, List.map_append]
+end
+
+end Femto.Ctl
